@@ -232,10 +232,13 @@ Print Assumptions glb_declared_is_actual.
    accessors, payload image and declared bounds of every accessor, primitives (counts, index width and
    range, attribute and index image), extension inclusions, nodes (count, name, TRS, kind, mode, lights,
    scene roots), instances, de-duplication of meshes and materials, material entries, GLB framing.
-   NOT in the record (evaluated by the checker only): content of the texture slots of a material
-   ([tex_matches]; "duplicate-entry" is the separate theorem textures_deduplicated),
-   "texture-pointer-stored-twice", "unreferenced-entry", absence of duplicates in extensionsUsed /
-   extensionsRequired, and the boolean packaging itself. *)
+   Round 4: [gltf_check = gltf_check_struct ++ gltf_check_models]; the struct half is proved in boolean
+   form (gltf_valid_model_struct), the full statement is REFUTED as it stands (material_content_refuted:
+   texture extensions are ignored by the material equality — a defect of the code, fix proposed).
+   Of the models half, proved in boolean form: attribute-count-mismatch, index-out-of-range
+   (prim_clauses_hold); in Prop form: this record.  Still evaluator-only: texture-slot content of a
+   material ([tex_matches], false in general, see above), "texture-pointer-stored-twice",
+   "unreferenced-entry", and the boolean form of the node-by-node clauses. *)
 Theorem gltf_valid_model_partial : forall sc, scene_ok sc -> scene_ptr_ok sc -> doc_valid sc.
 Proof. exact model_doc_valid. Qed.
 Print Assumptions gltf_valid_model_partial.
@@ -293,6 +296,15 @@ Theorem gltf_valid_model_struct : forall sc, scene_ok sc -> scene_ptr_ok sc ->
   gltf_check_struct sc (obs_text sc) = [].
 Proof. exact check_struct_run. Qed.
 Print Assumptions gltf_valid_model_struct.
+
+(* models half, the primitive clauses in the checker's boolean form: "attribute-count-mismatch" and
+   "index-out-of-range" never fire on a document of the model *)
+Theorem prim_clauses_hold : forall sc, scene_ok sc ->
+  let s := to_summary (run sc) in
+  forallb (fun m => forallb (counts_agree s) (gm_prims m)) (s_meshes s) = true /\
+  forallb (fun m => forallb (indices_in_range s (buf (run sc))) (gm_prims m)) (s_meshes s) = true.
+Proof. exact prim_clauses_run. Qed.
+Print Assumptions prim_clauses_hold.
 
 (* the models half cannot be proved as it stands: "material-content" is FALSE of the faithful model (and of
    the code: fixes/C06-texture-equal-ignores-extensions): PolyformTexture.equal ignores texture
